@@ -136,6 +136,41 @@ def handle (st : St) (line : String) : St × String :=
             let v ← parseValue v
             pure (st, showDoc (d.set p v))
           | .error _ => pure (st, (if d.has p then "1 " else "0 ") ++ showValue (d.get p))
+        | "rempty" => do
+          let r ← parseRange (← j.getObjVal? "r")
+          pure (st, if r.isEmpty then "1" else "0")
+        | "rinter" => do
+          let r ← parseRange (← j.getObjVal? "r")
+          let r2 ← parseRange (← j.getObjVal? "r2")
+          pure (st, showRange (r.intersect r2))
+        | "scan" => do
+          -- IterateRange / Iterate on the current database, through a read transaction
+          let c ← getHex j "coll"
+          let f ← getHex j "field"
+          let rev := ((j.getObjVal? "rev").toOption.bind (·.getBool?.toOption)).getD false
+          let stop := (j.getObjVal? "stopAfter").toOption.bind (·.getNat?.toOption)
+          let onId : List Bytes → Bytes → StoreM (List Bytes × Flow) := fun acc id =>
+            let acc' := id :: acc
+            pure (acc', match stop with
+              | some k => if acc'.length ≥ k then Flow.stop else Flow.cont
+              | none => Flow.cont)
+          let body : StoreM (List Bytes) := match j.getObjVal? "r" with
+            | .ok rj => if rj.isNull then iterateAll c f rev onId [] else
+                match parseRange rj with
+                | .ok r => iterateRange c f r rev onId []
+                | .error _ => StoreM.fail .badInput
+            | .error _ => iterateAll c f rev onId []
+          match withTx false body (fun _ => false) st.db.kv with
+          | (.ok ids, _, _, _) => pure (st, "ok ids " ++ ",".intercalate (ids.reverse.map toHex))
+          | (.err e, _, _, _) => pure (st, "err " ++ showErr e)
+        | "cursor" => do
+          -- the cursor contract over a set of keys
+          let keys ← (← getArr j "keys").toList.mapM (fun s => do fromHex (← s.getStr?))
+          let target ← getHex j "target"
+          let fwd := ((j.getObjVal? "fwd").toOption.bind (·.getBool?.toOption)).getD true
+          let kv : KVS := keys.foldl (fun kv k => kvSet kv k .unit) []
+          let items := if fwd then seekFwd kv target else seekRev kv target
+          pure (st, ",".intercalate (items.map (fun e => toHex e.1)))
         | _ => throw s!"unknown kind {k}"
       match r with
       | .ok x => x
